@@ -265,7 +265,8 @@ impl Interpolation {
             })
             .collect::<Vec<_>>();
 
-        let builder_name = format!("{}_builder", key);
+        // the key's name may contain `-`, its ident does not
+        let builder_name = format!("{}_builder", key.ident);
 
         let ident = syn::Ident::new(&builder_name, Span::call_site());
 
